@@ -10,11 +10,12 @@ Setters: `Gen.pySetters` (src/python.rs) against `Gen.rsSetters` (src/builder.rs
 every run.  Rewrite: `pyRewrite` is the hand-written model of `replace_unicode_escape_sequences`
 (tied to the code by the Y stream through the real extension in CPython).
 
-Whole pattern (`python_output_is_tokenwise_rewrite`, `python_build`): the text `build()` returns is a sequence of pattern tokens — a
+Whole pattern (`python_rewrite_is_tokenwise`, `python_build`, `python_class_faithful`): the text `build()` returns is a sequence of pattern tokens — a
 character other than the backslash, a backslash with the character it escapes, `\u{h…}` — and what Python returns under `-e` is that
 sequence with each `\u{h…}` token in Python's form and every other token unchanged (`PyEmit`; the reading into tokens is unique:
-`PyEmit.unique`).  For every input and every setting the Python class has: class options, `-i`, `-r` with any thresholds, capturing
-groups, verbose mode, anchors, surrogate pairs.  Found while proving it: an escaped backslash in front of `u{2}` (test case `\uu` with
+`PyEmit.unique`).  For every non-empty list of test cases (segmentation contract `SegOK`; with `-r`: positive thresholds and at most 1000
+graphemes per stored test case) and every setting the Python class has: class options, `-i`, `-r`, capturing groups, verbose mode,
+anchors, surrogate pairs.  Found while proving it: an escaped backslash in front of `u{2}` (test case `\uu` with
 `-r -e`) was read as the escape `\u{2}` (fixed in python.rs; see known_findings.json).
 -/
 set_option linter.unusedSimpArgs false
@@ -206,6 +207,21 @@ theorem python_build (env : Env) (b b' : Builder) (out : Str) (hcol : b.config.c
         simp only [ite_true] at hout ⊢
         rw [← hout]
         exact python_rewrite_is_tokenwise b.config hcol st.finalAst (final_ast_atoms b.config env b.testCases st hst hseg hws hrep)
+
+/-- **C14, assembled**: for every list of test cases and every sequence of setter calls of the Python class (integer arguments
+non-negative) that does not raise, the library accepts the same calls with the same resulting settings, and what the Python `build()`
+returns is what the library's `build()` returns for those settings — as it is without `-e`, and with each `\u{h…}` token in Python's
+form and nothing else changed with `-e` -/
+theorem python_class_faithful (env : Env) (ws : List Str) (ops : List (SetterId × Arg)) (cfg : Config) (b' : Builder) (out : Str)
+    (hops : ∀ op ∈ ops, (∀ i, op.2 = .int i → 0 ≤ i) ∧ op.1 ≠ .syntaxHighlighting)
+    (hset : runSetters pySetters ops {} = .ok cfg)
+    (hpy : pyBuild env ⟨ws, cfg⟩ = .ok (b', out))
+    (hseg : ∀ w ∈ storedCases cfg env ws, SegOK env w) (hws : ws ≠ [])
+    (hrep : cfg.rep = true → 1 ≤ cfg.minRep ∧ ∀ w ∈ storedCases cfg env ws, (subPieces (env.segOf w)).length ≤ 1000) :
+    runSetters rsSetters ops {} = .ok cfg ∧
+      ∃ s, Builder.build env ⟨ws, cfg⟩ = .ok (b', s) ∧ (if cfg.esc then PyEmit s out else out = s) := by
+  refine ⟨by rw [← py_history_eq ops {} hops]; exact hset, ?_⟩
+  exact python_build env ⟨ws, cfg⟩ b' out (py_history_no_colour ops {} cfg rfl hset) hpy hseg hws hrep
 
 /-- the reading into tokens is unique, so the Python text is a function of the library's text -/
 theorem tokenwise_image_unique {s p q : Str} (h1 : PyEmit s p) (h2 : PyEmit s q) : p = q := h1.unique h2
